@@ -6,6 +6,7 @@
   the real code by the correspondence: post-snapshot = pre-snapshot.)
 -/
 import Whawty.Lemmas.Store
+import Whawty.Lemmas.StoreInv
 namespace Whawty.Store.C02
 open Whawty Whawty.Rec Whawty.Store
 
@@ -88,5 +89,131 @@ example : authenticate toyCfg toyDir [97] [9] = .ok ⟨false, false, 5⟩ := by
   · decide
   · decide
   · decide
+
+
+/-! ### Unsupported and invalid hash files are hidden from `list` -/
+
+/-- Every entry `List` reports is backed by a file of that user with that extension whose hash
+    is SUPPORTED (a record of a configured parameter set with matching format id, non-empty salt
+    and digest). Hence a file with an unsupported or invalid hash is never listed — whatever
+    else the directory holds, in whatever order `readdir` returns it. -/
+theorem list_only_supported (c : Cfg) (d : Dir) (l : List ListEntry) (h : list c d = some l) :
+    ∀ e ∈ l, ∃ x, (fileName e.user e.isAdmin, x) ∈ d ∧ supported c x = true := by
+  have hnone : ∀ (r : Dir), r.foldl (listStep c) none = none := by
+    intro r; induction r with
+    | nil => rfl
+    | cons _ _ ihr => simpa [List.foldl, listStep] using ihr
+  have gen : ∀ (rest : Dir) (acc : List ListEntry), (∀ y ∈ rest, y ∈ d) →
+      (∀ e ∈ acc, ∃ x, (fileName e.user e.isAdmin, x) ∈ d ∧ supported c x = true) →
+      ∀ l, rest.foldl (listStep c) (some acc) = some l →
+        ∀ e ∈ l, ∃ x, (fileName e.user e.isAdmin, x) ∈ d ∧ supported c x = true := by
+    intro rest
+    induction rest with
+    | nil => intro acc _ hacc l hl; simp at hl; subst hl; exact hacc
+    | cons y rest ih =>
+      intro acc hsub hacc l hl
+      have hsub' : ∀ z ∈ rest, z ∈ d := fun z hz => hsub z (by simp [hz])
+      have hy : y ∈ d := hsub y (by simp)
+      simp only [List.foldl] at hl
+      generalize hs : listStep c (some acc) y = s at hl
+      unfold listStep at hs
+      by_cases ht : y.1 = tmpName
+      · simp only [ht, if_true] at hs; subst hs; exact ih acc hsub' hacc l hl
+      · simp only [ht, if_false] at hs
+        cases hc : checkUserFile y.1 with
+        | none => simp only [hc] at hs; subst hs; rw [hnone] at hl; simp at hl
+        | some r =>
+          obtain ⟨valid, u, adm⟩ := r
+          simp only [hc] at hs
+          cases valid with
+          | false => simp only [Bool.not_false, if_true] at hs; subst hs; exact ih acc hsub' hacc l hl
+          | true =>
+            simp only [Bool.not_true, Bool.false_eq_true, if_false] at hs
+            split at hs
+            · subst hs; exact ih acc hsub' hacc l hl
+            · rename_i hsup
+              subst hs
+              refine ih _ hsub' ?_ l hl
+              intro e he
+              simp only [List.mem_append, List.mem_filter, List.mem_singleton] at he
+              rcases he with he | he
+              · exact hacc e he.1
+              · subst he
+                refine ⟨y.2, ?_, ?_⟩
+                · have hn := checkUserFile_name hc
+                  simp only
+                  rw [← hn]; exact hy
+                · simpa [supported] using hsup
+  exact gen d [] (fun _ h => h) (by simp) l h
+
+/-- In particular: if the only file of `u` is unsupported, `u` is not in the list. -/
+theorem unsupported_hidden_from_list (c : Cfg) (d : Dir) (l : List ListEntry) (h : list c d = some l) (u : Bytes)
+    (hu : ∀ a x, (fileName u a, x) ∈ d → supported c x = false) : ∀ e ∈ l, e.user ≠ u := by
+  intro e he heq
+  obtain ⟨x, hx, hs⟩ := list_only_supported c d l h e he
+  rw [heq] at hx
+  rw [hu _ _ hx] at hs
+  exact absurd hs (by simp)
+
+/-- One iteration of the loop in `ListFull` (the lambda of `listFull`, named). -/
+def listFullStep (c : Cfg) (acc : Option (List FullEntry)) (e : Bytes × Node) : Option (List FullEntry) :=
+  match acc with
+  | none => none
+  | some l =>
+    if e.1 = tmpName then some l
+    else match checkUserFile e.1 with
+      | none => none
+      | some (valid, u, adm) =>
+        let (ok, f, ts, pid) := supportedFull c e.2
+        some (l.filter (·.user ≠ u) ++ [⟨u, adm, ts, valid, ok, f, pid⟩])
+
+theorem listFull_eq_fold (c : Cfg) (d : Dir) : listFull c d = d.foldl (listFullStep c) (some []) := by
+  unfold listFull
+  congr 1
+
+/-- `ListFull` shows every file with a user-file name, and its "supported" column is exactly the
+    supported-format predicate of that file: an unsupported or invalid hash is SHOWN, as unsupported. -/
+theorem listFull_reports_support (c : Cfg) (d : Dir) (l : List FullEntry) (h : listFull c d = some l) :
+    ∀ e ∈ l, ∃ x, (fileName e.user e.isAdmin, x) ∈ d ∧ e.supported = supported c x ∧ e.valid = validName e.user := by
+  rw [listFull_eq_fold] at h
+  have hnone : ∀ (r : Dir), r.foldl (listFullStep c) none = none := by
+    intro r; induction r with
+    | nil => rfl
+    | cons _ _ ihr => simpa [List.foldl, listFullStep] using ihr
+  have gen : ∀ (rest : Dir) (acc : List FullEntry), (∀ y ∈ rest, y ∈ d) →
+      (∀ e ∈ acc, ∃ x, (fileName e.user e.isAdmin, x) ∈ d ∧ e.supported = supported c x ∧ e.valid = validName e.user) →
+      ∀ l, rest.foldl (listFullStep c) (some acc) = some l →
+        ∀ e ∈ l, ∃ x, (fileName e.user e.isAdmin, x) ∈ d ∧ e.supported = supported c x ∧ e.valid = validName e.user := by
+    intro rest
+    induction rest with
+    | nil => intro acc _ hacc l hl; simp at hl; subst hl; exact hacc
+    | cons y rest ih =>
+      intro acc hsub hacc l hl
+      have hsub' : ∀ z ∈ rest, z ∈ d := fun z hz => hsub z (by simp [hz])
+      have hy : y ∈ d := hsub y (by simp)
+      simp only [List.foldl] at hl
+      generalize hs : listFullStep c (some acc) y = s at hl
+      unfold listFullStep at hs
+      by_cases ht : y.1 = tmpName
+      · simp only [ht, if_true] at hs; subst hs; exact ih acc hsub' hacc l hl
+      · simp only [ht, if_false] at hs
+        cases hc : checkUserFile y.1 with
+        | none => simp only [hc] at hs; subst hs; rw [hnone] at hl; simp at hl
+        | some r =>
+          obtain ⟨valid, u, adm⟩ := r
+          simp only [hc] at hs
+          subst hs
+          refine ih _ hsub' ?_ l hl
+          intro e he
+          simp only [List.mem_append, List.mem_filter, List.mem_singleton] at he
+          rcases he with he | he
+          · exact hacc e he.1
+          · subst he
+            refine ⟨y.2, ?_, rfl, ?_⟩
+            · have hn := checkUserFile_name hc
+              simp only
+              rw [← hn]; exact hy
+            · exact checkUserFile_valid hc
+  exact gen d [] (fun _ h => h) (by simp) l h
 
 end Whawty.Store.C02
